@@ -126,6 +126,7 @@ def run(name, tier="quick", props=None):
                           no_failing_input=bool(vio and vio[0].rstrip().endswith("no-failing-input-found")), replay=detail, wall_s=round(time.time() - t, 1), tier=tier)
     finally:
         sh(["git", "-C", "/repo", "checkout", "--", "."])
+        sh([sys.executable, os.path.join(V, "tools", "translate.py")], cwd=V)      # Generated/*.lean back to the unchanged source
     meta.setdefault("checks", {}).update(res)
     json.dump(meta, open(os.path.join(d, "meta.json"), "w"), indent=1)
     for p, r in res.items():
